@@ -30,15 +30,19 @@ const (
 	KFnBldRes               // flyt.NewNode().With...() Result-style
 	KFnBldAny               // flyt.NewNode().With...() Any-style
 	KFnMixed                // options and builder, Result and Any mixed
+	KEmbedBld               // composition: a struct embedding *flyt.NodeBuilder that overrides Prep, Exec and Post (the builder's own functions must never run)
+	KBaseOverride           // composition: a struct embedding *BaseNode (configured with OTHER settings) that overrides GetMaxRetries / GetWait
 	KFlow                   // a flyt.Flow (NodeSpec.Flow describes it)
 	KBatch                  // a sequential two-item batch node (builder); item calls are recorded as phase "item"
 	NumScriptedKinds = KFlow
 )
 
-var KindNames = []string{"base", "baseFB", "plain", "plainFB", "plainRetry", "plainRetryFB", "fnOptRes", "fnOptAny", "fnBldRes", "fnBldAny", "fnMixed", "flow", "batch"}
+var KindNames = []string{"base", "baseFB", "plain", "plainFB", "plainRetry", "plainRetryFB", "fnOptRes", "fnOptAny", "fnBldRes", "fnBldAny", "fnMixed", "embedBuilder", "baseOverride", "flow", "batch"}
 
 func KindHasRetry(k int) bool { return k != KPlain && k != KPlainFB }
-func KindCanFB(k int) bool    { return k != KBase && k != KPlain && k != KPlainRetry }
+func KindCanFB(k int) bool {
+	return k != KBase && k != KPlain && k != KPlainRetry && k != KBaseOverride
+}
 
 // Error kinds used by scripted failures.
 const (
@@ -59,7 +63,13 @@ const (
 	EUncomparable = NumErrKinds + 3
 	// EJoined: errors.Join(other, sentinel) — the sentinel sits in a multi-error tree, not in a linear chain
 	EJoined = NumErrKinds + 4
+	// ENestedRun: the callback ran another flyt.Run itself, which failed, and returns its own error value wrapping both
+	// its sentinel and that inner run's error (the returned value is still the callback's own)
+	ENestedRun = NumErrKinds + 5
 )
+
+// AllErrKinds lists every error kind a callback can be scripted to fail with (ECtxAware excluded: it depends on the context).
+var AllErrKinds = []int{ESentinel, EWrapped, ECustom, ECtxLike, EUncomparable, EJoined, ENestedRun, ETemporary}
 
 // UncompErr is an error whose dynamic type is not comparable.
 type UncompErr struct {
@@ -126,6 +136,9 @@ const EndAction = "__end"
 type Inject struct {
 	Kind string `json:"kind"` // "", "cancel", "deadline", "pre-cancel", "pre-deadline", "real-timeout", "pre-expired"
 	At   int    `json:"at"`   // callback ordinal (0-based) at whose entry the context is cancelled
+	// OneRun: the injection applies to run number Run only (0-based); the other runs of the scenario get a live context
+	OneRun bool `json:"one_run,omitempty"`
+	Run    int  `json:"run,omitempty"`
 }
 
 // Scenario is a complete case.
@@ -224,6 +237,7 @@ type Exec struct {
 	sharedBase  map[int]*flyt.BaseNode
 	seenCtx     []context.Context
 	ctxFlagged  bool
+	getterCalls atomic.Int64
 }
 
 type core struct {
@@ -319,6 +333,9 @@ func (x *Exec) enter() (ordinal int) {
 	if inj.Kind == "real-timeout" && ordinal < inj.At && x.ctx.Err() != nil {
 		x.tripped.Store(true) // expired before the chosen position: case will be discarded
 	}
+	if inj.OneRun && inj.Run != x.runIdx {
+		return
+	}
 	if (inj.Kind == "cancel" || inj.Kind == "deadline" || inj.Kind == "cancel-cause") && inj.At == ordinal && x.cancel != nil {
 		x.cancel()
 		x.cancelSeq = ordinal
@@ -365,6 +382,12 @@ func (x *Exec) mkErr(kind int, id string) error {
 	case EJoined:
 		sentinel = errors.New("sentinel " + id)
 		ret = errors.Join(errors.New("unrelated failure"), sentinel)
+	case ENestedRun:
+		sentinel = &CustomErr{ID: id}
+		_, inner := flyt.Run(context.Background(), flyt.NewNode().WithExecFuncAny(func(context.Context, any) (any, error) {
+			return nil, errors.New("inner sub-run failure")
+		}), flyt.NewSharedStore())
+		ret = fmt.Errorf("step failed: %w (sub-run: %w)", sentinel, inner)
 	case ECtxAware:
 		sentinel = errors.New("sentinel " + id)
 		ret = sentinel
@@ -652,14 +675,57 @@ type plainRetryNode struct {
 	n int
 }
 
-func (n *plainRetryNode) GetMaxRetries() int { return n.n }
+func (n *plainRetryNode) GetMaxRetries() int { n.c.x.enterGetter(); return n.n }
 func (n *plainRetryNode) GetWait() time.Duration {
+	n.c.x.enterGetter()
 	return time.Duration(n.c.spec.WaitMs) * time.Millisecond
 }
 
 type plainRetryFBNode struct{ plainRetryNode }
 
 func (n *plainRetryFBNode) ExecFallback(p any, err error) (any, error) { return n.c.fallback(p, err) }
+
+// embedBldNode decorates a builder-made node: its own Prep / Exec / Post are the node's phases.
+type embedBldNode struct {
+	*flyt.NodeBuilder
+	c *core
+}
+
+func (n *embedBldNode) Prep(ctx context.Context, s *flyt.SharedStore) (any, error) {
+	return n.c.prep(ctx, s)
+}
+func (n *embedBldNode) Exec(ctx context.Context, p any) (any, error) { return n.c.exec(ctx, p) }
+func (n *embedBldNode) Post(ctx context.Context, s *flyt.SharedStore, p, e any) (flyt.Action, error) {
+	return n.c.post(ctx, s, p, e)
+}
+
+// baseOverrideNode embeds a BaseNode carrying other settings and overrides the getters: the getters are the node's settings.
+type baseOverrideNode struct {
+	baseNode
+}
+
+func (n *baseOverrideNode) GetMaxRetries() int {
+	n.c.x.enterGetter()
+	return n.c.spec.N
+}
+func (n *baseOverrideNode) GetWait() time.Duration {
+	n.c.x.enterGetter()
+	return time.Duration(n.c.spec.WaitMs) * time.Millisecond
+}
+
+// enterGetter is called inside user-supplied settings getters (they are user callbacks too): the injection kind
+// "cancel-in-getter" cancels the context inside the At-th such call (1-based).
+func (x *Exec) enterGetter() {
+	if x.Sc.Inject.Kind != "cancel-in-getter" {
+		return
+	}
+	if int(x.getterCalls.Add(1)) == x.Sc.Inject.At && x.cancel != nil && (!x.Sc.Inject.OneRun || x.runIdx == x.Sc.Inject.Run) {
+		x.cancel()
+		x.mu.Lock()
+		x.cancelSeq = x.seq - 1 // every callback recorded from now on comes after the cancellation
+		x.mu.Unlock()
+	}
+}
 
 func (x *Exec) build(id int) flyt.Node {
 	if x.nodes[id] != nil {
@@ -772,6 +838,28 @@ func (x *Exec) build(id int) flyt.Node {
 			opts = append(opts, flyt.WithExecFallbackFunc(c.fallback))
 		}
 		n = flyt.NewNode(opts...).WithExecFunc(execR).WithPostFuncAny(c.post)
+	case KEmbedBld:
+		stray := func(what string) {
+			c.x.record(Event{Node: id, Visit: c.visit - 1, Phase: "anomaly", Note: "the embedded builder's own " + what + " function ran although the node overrides that phase"})
+		}
+		b := flyt.NewNode().WithMaxRetries(spec.N).WithWait(time.Duration(spec.WaitMs) * time.Millisecond).
+			WithPrepFuncAny(func(ctx context.Context, s *flyt.SharedStore) (any, error) { stray("prep"); return "inner-prep", nil }).
+			WithExecFuncAny(func(ctx context.Context, p any) (any, error) { stray("exec"); return "inner-exec", nil }).
+			WithPostFuncAny(func(ctx context.Context, s *flyt.SharedStore, p, e any) (flyt.Action, error) {
+				stray("post")
+				return "inner-post-action", nil
+			})
+		if spec.HasFB {
+			b = b.WithExecFallbackFunc(c.fallback)
+		}
+		n = &embedBldNode{NodeBuilder: b, c: c}
+	case KBaseOverride:
+		// the embedded BaseNode carries settings that must NOT be used
+		other := flyt.NewBaseNode(flyt.WithMaxRetries(spec.N+2), flyt.WithWait(0))
+		if spec.N > 2 {
+			other = flyt.NewBaseNode(flyt.WithMaxRetries(1))
+		}
+		n = &baseOverrideNode{baseNode{BaseNode: other, c: c}}
 	case KBatch:
 		bn := flyt.NewBatchNode().
 			WithPrepFunc(func(ctx context.Context, s *flyt.SharedStore) ([]flyt.Result, error) {
@@ -878,8 +966,13 @@ func (x *Exec) RunOnce() (out Outcome) {
 	x.cancelSeq = -1
 	var ctx context.Context = context.Background()
 	var stop func() = func() {}
-	switch x.Sc.Inject.Kind {
-	case "cancel", "pre-cancel":
+	injKind := x.Sc.Inject.Kind
+	if x.Sc.Inject.OneRun && x.Sc.Inject.Run != x.runIdx {
+		injKind = "(none in this run)"
+	}
+	x.getterCalls.Store(0)
+	switch injKind {
+	case "cancel", "pre-cancel", "cancel-in-getter":
 		c, cf := context.WithCancel(context.Background())
 		ctx, x.cancel, stop = c, cf, cf
 		if x.Sc.Inject.Kind == "pre-cancel" {
